@@ -15,6 +15,18 @@ static void chk(const std::string& what, Real err, Real tol, unsigned long long 
     ++evals;
     if (!(err <= tol)) { if (fails++ < 60) std::printf("FAIL %s err=%.6g seed=%llu system=%d %s\n", what.c_str(), err, seed, k, describe(rs).c_str()); }
 }
+// simbody's RBNodeLoneParticle: childless Translation on Ground, identity frames, mass centre at the body origin
+static void buildLone(RandSystem& rs, Rng& r, int nb) {
+    rs.euler = r.I(0, 1) == 1;
+    for (int i = 0; i < nb; ++i) {
+        Real m = r.U(0.2, 2);
+        Body::Rigid body(MassProperties(m, Vec3(0), m * UnitInertia::sphere(r.U(0.1, 0.5))));
+        MobilizedBody::Translation(rs.matter.updGround(), Transform(), body, Transform());
+        rs.types.push_back(10); rs.revs.push_back(false);
+    }
+    rs.state = rs.sys.realizeTopology(); rs.matter.setUseEulerAngles(rs.state, rs.euler); rs.sys.realizeModel(rs.state);
+    for (int i = 0; i < rs.state.getNU(); ++i) rs.state.updU()[i] = r.U(-1, 1);
+}
 int main(int argc, char** argv) {
     unsigned long long seed = std::strtoull(argv[1], 0, 10); int nsys = std::atoi(argv[2]); int maxb = argc > 3 ? std::atoi(argv[3]) : 6;
     Rng r(seed);
@@ -23,7 +35,7 @@ int main(int argc, char** argv) {
         RandSystem rs; int nb = r.I(1, maxb); int shape = r.I(0, 2);
         // every other system is built from a single mobilizer type so that a failure names its type
         int only = (k % 2 == 0) ? (k / 2) % NMOBTYPES : -1;
-        try { rs.build(r, nb, shape, only); } catch (const std::exception& e) { continue; }
+        try { if (k % 20 == 19) buildLone(rs, r, nb); else rs.build(r, nb, shape, only); } catch (const std::exception& e) { continue; }
         State& s = rs.state; const SimbodyMatterSubsystem& m = rs.matter;
         for (int i = 0; i < s.getNQ(); ++i) s.updQ()[i] = r.U(0.1, 1.2) * (r.I(0, 1) ? 1 : -1);
         for (MobilizedBodyIndex b(1); b < m.getNumBodies(); ++b) if (m.isUsingQuaternion(s, b)) {
